@@ -117,12 +117,13 @@ structure TmplName where
   deriving DecidableEq, Repr, Inhabited
 
 /-- One definition site: `name` = `TmplName.id`, `file` = `TmplFile.id`, `tmpl` the `define` block that contains
-the text (`main` = top level of the file template), `kind` = func | method | type | var | const | field,
+the text (position in `c17Tmpls`; `main` = top level of the file template; blocks of go_shared count as part of
+their caller), `kind` = func | method | type | var | const | field,
 `guard` the guards between the top of the file template and the text (through `{{template}}` calls). -/
 structure TmplDef where
   name : Nat
   file : Nat
-  tmpl : String
+  tmpl : Nat
   kind : String
   guard : GF
   deriving DecidableEq, Repr, Inhabited
@@ -132,7 +133,7 @@ outside its own declaration header. -/
 structure TmplUse where
   name : Nat
   file : Nat
-  tmpl : String
+  tmpl : Nat
   guard : GF
   deriving DecidableEq, Repr, Inhabited
 
